@@ -18,6 +18,8 @@ from zmon.util import nm
 IRO = ro.InconsistentResolutionOrderError
 STRICT = os.environ.get('ZOPE_INTERFACE_STRICT_IRO') == '1'
 LEGACY = os.environ.get('ZOPE_INTERFACE_USE_LEGACY_IRO') == '1'
+WARN = os.environ.get('ZOPE_INTERFACE_WARN_BAD_IRO') == '1'
+TRACK = os.environ.get('ZOPE_INTERFACE_TRACK_BAD_IRO') == '1'
 
 
 def eff_bases(n):
@@ -717,9 +719,23 @@ class Graph:
                                                             'c3_exists': raw is not None,
                                                             'bases': [self.name_of(b) for b in S.__bases__]},
                                   mechanism='is_consistent_skips_own_merge' if (cons and direct) else None)
-                with warnings.catch_warnings():
-                    warnings.simplefilter('ignore')
+                with warnings.catch_warnings(record=True) as caught:
+                    warnings.simplefilter('always')
                     loose = ro.ro(S, strict=False, use_legacy_ro=False)
+                if WARN:
+                    # the warning configuration: a warning is issued exactly when some merge on the way had no C3 order
+                    warned = any(issubclass(w_.category, ro.InconsistentResolutionOrderWarning) for w_ in caught)
+                    ctx.ev()
+                    ctx.count('warning_verdicts')
+                    if warned != (raw is None):
+                        ctx.violation('inconsistency-warning-verdict', {'spec': name_, 'warned': warned, 'c3_exists': raw is not None})
+                if TRACK and raw is None:
+                    # the tracking configuration keeps the offending specifications for inspection
+                    ctx.ev()
+                    ctx.count('tracking_verdicts')
+                    anc = [S] + list(util.reach(S, util.spec_bases)[1])
+                    if not any(x in ro.C3.BAD_IROS for x in anc):
+                        ctx.violation('inconsistent-specification-not-tracked', {'spec': name_})
                 ctx.ev()
                 if raw is not None and [id(x) for x in loose] != [id(x) for x in raw]:
                     ctx.violation('ro-not-c3', {'spec': name_, 'ro': [self.name_of(x) for x in loose]})
